@@ -44,7 +44,7 @@ def run_end_violation(run, world):
     if run.end == 'deadlock':
         return 'would-hang:self-deadlock-on-lock'
     transport_ended = any(e[0] == 'recv' and e[5] == b'' for e in world.log) or \
-        any(e[0] in ('recv_fault', 'wait_fault') for e in world.log)
+        any(e[0] in ('recv_fault', 'wait_fault', 'wait_closed') for e in world.log)
     if run.end == 'budget':
         return 'no-termination-after-transport-end' if transport_ended else 'INCONCLUSIVE-budget'
     if run.end == 'quiesced':
